@@ -63,7 +63,16 @@ def load_inputs(spec):
     return out
 
 
+ANNOT_VARYING_CLASSES = ["Landroid/support/graphics/drawable/AnimationUtilsCompat;", "Landroid/support/graphics/drawable/AnimatorInflaterCompat;",
+                         "Landroid/support/v4/app/BackStackRecord;", "Landroid/support/constraint/solver/widgets/Optimizer;",
+                         "Landroid/support/v7/app/ActionBarDrawerToggleHoneycomb;"]
+
+
 def class_filter(name, cls_names, quick):
+    if name == "Annotation_classes.dex" and quick:
+        # quick: the classes whose methods were order-dependent before the repairs + every 12th class
+        keep = set(cls_names[::12]) | set(ANNOT_VARYING_CLASSES)
+        return [c for c in cls_names if c in keep]
     if name == "classes.dex" and quick:
         keep = set(cls_names[::QUICK_STRIDE]) | set(KNOWN_VARYING_CLASSES)
         return [c for c in cls_names if c in keep]
@@ -282,11 +291,11 @@ def run(ctx):
         return
     quick = ctx.quick
     if quick:
-        inputs = ["classes.dex"] + SMALL_DEX + ["gen:0:60"]
+        inputs = ["classes.dex", "Annotation_classes.dex"] + SMALL_DEX + ["gen:0:60"]
         groups = [inputs]
     else:
-        inputs = ["classes.dex"] + SMALL_DEX + THOROUGH_APKS + ["gen:0:400", "gen:1:400"]
-        groups = [["classes.dex"], SMALL_DEX + THOROUGH_APKS[:3], THOROUGH_APKS[3:] + ["gen:0:400", "gen:1:400"]]
+        inputs = ["classes.dex", "Annotation_classes.dex"] + SMALL_DEX + THOROUGH_APKS + ["gen:0:400", "gen:1:400"]
+        groups = [["classes.dex"], ["Annotation_classes.dex"], SMALL_DEX + THOROUGH_APKS[:3], THOROUGH_APKS[3:] + ["gen:0:400", "gen:1:400"]]
     cfgs = child_configs(quick)
     args = []
     for gi, g in enumerate(groups):
